@@ -572,6 +572,20 @@ impl AddrPool {
             IpAddr::V4(Ipv4Addr::new(p[0], p[1], p[2], host))
         } else {
             let mut o = [0u8; 16];
+            // IPv6 sources that embed an IPv4 address (::a.b.c.d and ::ffff:a.b.c.d): IPv6 addresses of one
+            // /64 and one /48 like any other, whatever their low 32 bits spell
+            if rng.chance(0.12) {
+                let p = *rng.pick(&self.p24);
+                o[12] = p[0];
+                o[13] = p[1];
+                o[14] = rng.below(8) as u8;
+                o[15] = rng.below(4) as u8 + 1;
+                if rng.chance(0.5) {
+                    o[10] = 0xff;
+                    o[11] = 0xff;
+                }
+                return IpAddr::V6(Ipv6Addr::from(o));
+            }
             match rng.below(10) {
                 0..=5 => o[..8].copy_from_slice(&rng.pick(&self.p64[..])[..]),
                 6..=7 => {
